@@ -199,7 +199,7 @@ class Case:
                 L.append("def %d %s" % (o[1], o[2]))
             elif t == "n":
                 L.append("n %d %s" % (o[1], hx(o[2])))
-            elif t in ("b", "i"):
+            elif t in ("b", "i", "j"):
                 L.append("%s %d %s" % (t, o[1], " ".join(hx(v) for v in o[2:7])))
             elif t in ("r", "s", "d", "x"):
                 L.append("%s %d" % (t, o[1]))
@@ -224,7 +224,8 @@ class Case:
                 L.append("oD %d %s" % (o[1], KIND[o[2]]))
             elif t == "n":
                 L.append("oX %d %s" % (o[1], coqf(o[2])))
-            elif t == "b":
+            elif t in ("b", "j"):
+                # "j": a DataItem deserialised from the five numbers is, for the model, a bar with those numbers
                 L.append("oB %d %s" % (o[1], " ".join(coqf(v) for v in o[2:7])))
             elif t == "i":
                 L.append("oI %d %s" % (o[1], " ".join(coqf(v) for v in o[2:7])))
